@@ -1,12 +1,14 @@
 import JominiModel.Props.C08
-open Jomini.Props.C08
-#print axioms C08_lexeme_ids_measured
-#print axioms C08_codec
-#print axioms C08_codec_exclusions
-#print axioms C08_prefix_stable
-#print axioms C08_lexer_api
-#print axioms C08_Buffer_refines
-#print axioms C08_Buffer_refines_init
-#print axioms C08_stream_eq_lexer
-#print axioms C08_slice_eq_lexer
-#print axioms C08_stream_with_faults
+#print axioms Jomini.Props.C08.C08_lexeme_ids_measured
+#print axioms Jomini.Props.C08.C08_codec
+#print axioms Jomini.Props.C08.C08_codec_exclusions
+#print axioms Jomini.Props.C08.C08_prefix_stable
+#print axioms Jomini.Props.C08.C08_lexer_api
+#print axioms Jomini.Props.C08.C08_lexer_primitives
+#print axioms Jomini.Props.C08.C08_fits_of_large
+#print axioms Jomini.Props.C08.C08_Buffer_refines
+#print axioms Jomini.Props.C08.C08_Buffer_refines_init
+#print axioms Jomini.Props.C08.C08_stream_eq_lexer
+#print axioms Jomini.Props.C08.C08_slice_eq_lexer
+#print axioms Jomini.Props.C08.C08_stream_with_faults
+#print axioms Jomini.Props.C08.C08_too_small_is_error
